@@ -271,11 +271,23 @@ class ClassUnit:
         tree = ast.parse(src)
         self.path, self.cls = path, cls
         self.methods = {}
+        self.consts = {}      # class-level and module-level names bound once to a numeric literal
         for c in tree.body:
+            if isinstance(c, ast.Assign) and len(c.targets) == 1 and isinstance(c.targets[0], ast.Name):
+                try:
+                    self.consts[c.targets[0].id] = ast.literal_eval(c.value)
+                except (ValueError, SyntaxError):
+                    pass
             if isinstance(c, ast.ClassDef) and c.name == cls:
                 for m in c.body:
                     if isinstance(m, ast.FunctionDef):
                         self.methods[m.name] = m
+                    if isinstance(m, ast.Assign) and len(m.targets) == 1 and isinstance(m.targets[0], ast.Name):
+                        try:
+                            self.consts['self.' + m.targets[0].id] = ast.literal_eval(m.value)
+                        except (ValueError, SyntaxError):
+                            pass
+        self.consts = {k: v for k, v in self.consts.items() if isinstance(v, (int, float)) and not isinstance(v, bool)}
         if not self.methods:
             raise Untranslatable('class %s not found in %s' % (cls, path))
         self.attr_types = attr_types          # python attr -> type
@@ -304,6 +316,8 @@ class ClassUnit:
                 return ('var', 'none', 'none')
             return lit(n.value)
         if isinstance(n, ast.Name):
+            if n.id not in ctx.locs and n.id in self.consts:
+                return lit(self.consts[n.id])
             if n.id in ctx.locs:
                 if ctx.locs[n.id][0] == 'opaque':
                     raise Untranslatable('use of `%s`, which the translator does not model (%s)' % (n.id, ctx.locs[n.id][1]))
@@ -315,6 +329,8 @@ class ClassUnit:
             if isinstance(n.value, ast.Name) and n.value.id == ctx.self_name:
                 if n.attr in ctx.fields:
                     return ctx.fields[n.attr]
+                if 'self.' + n.attr in self.consts:
+                    return lit(self.consts['self.' + n.attr])
                 if self.is_property(n.attr):
                     if n.attr in self.callables and self.base_fields is not None and \
                             all(ctx.fields[k] is self.base_fields[k] for k in self.base_fields):
@@ -1168,6 +1184,12 @@ KFNS = [
         binders=[('asset', 'String'), ('q', 'Int'), ('x', 'α')], fields={}, params=FEE_PARAMS, ret='num',
         statement='(asset : String) (q : Int) (x : α) :\n    GEN (α := α) asset q x = Qs.FeeModel.totalCost (.zero : Qs.FeeModel α) x',
         defs=['Qs.FeeModel.totalCost']),
+    KFn('DW.checkBuffer', 'qstrader/portcon/order_sizer/dollar_weighted.py', 'DollarWeightedCashBufferedOrderSizer', '_check_set_cash_buffer',
+        'DW.checkBuffer', binders=[('b', 'α')], fields={}, params=[('cash_buffer_percentage', V('b', 'num'))], ret='exc:num',
+        statement='(b : α) :\n    GEN b = Qs.dwCheckBuffer b', defs=['Qs.dwCheckBuffer']),
+    KFn('LS.checkLeverage', 'qstrader/portcon/order_sizer/long_short.py', 'LongShortLeveragedOrderSizer', '_check_set_gross_leverage',
+        'LS.checkLeverage', binders=[('l', 'α')], fields={}, params=[('gross_leverage', V('l', 'num'))], ret='exc:num',
+        statement='(l : α) :\n    GEN l = Qs.lsCheckLeverage l', defs=['Qs.lsCheckLeverage']),
     KFn('DW.normalise', 'qstrader/portcon/order_sizer/dollar_weighted.py', 'DollarWeightedCashBufferedOrderSizer', '_normalise_weights',
         'DW.normalise', binders=[('w', 'Qs.Weights α')], fields={}, params=[('weights', W)], ret='exc:dict:num',
         statement='(w : Qs.Weights α) :\n    GEN w = Qs.dwNormalise w', defs=SIZER_DEFS),
